@@ -124,6 +124,17 @@ std::string opOutput(const Context& ctx, const std::string& s) {
   const auto out = mgr.Resolve(s);
   return hex(mgr.OutputRefs(out));
 }
+// one ManagedText object used twice: initialised from `prev`, then re-initialised from `cur` (InitFrom, or SetRaw +
+// UpdateFrom, or assignment of the raw text through TranslateRefs with an empty map): what it shows afterwards must be
+// the resolution of `cur` alone (seeded change C17-3: a stale cache survives a text without markers)
+std::string opReinit(const Context& ctx, const std::string& prev, const std::string& cur, int how) {
+  ManagedText text{ prev };
+  text.InitFrom(prev, ctx);
+  if (how == 0) text.InitFrom(cur, ctx);
+  else if (how == 1) { text.SetRaw(cur); text.UpdateFrom(ctx); }
+  else { text.InitFrom(cur, ctx); text.UpdateFrom(ctx); }
+  return hex(text.Str()) + " " + hex(text.Raw());
+}
 using Subst = std::map<std::string, std::string>;
 std::string substLine(const Subst& m) {
   if (m.empty()) return "-";
@@ -307,6 +318,13 @@ void textOps(vh::Rng& rng, const std::string& text, bool clean) {
   ops.emplace_back("c17 output " + ctx->Line() + " " + h, [=]() { return opOutput(*ctx, text); });
   ops.emplace_back("c17 translate " + substLine(subst) + " " + h, [=]() { return opTranslate(subst, text); });
   ops.emplace_back("c17 referals " + h, [=]() { return opReferals(text); });
+  {
+    // previous content of the object: a text with references (or this text itself), then this text / a plain one
+    const std::string prev = rng.chance(2, 3) ? genText(rng, true, 4) : text;
+    const std::string cur = rng.chance(1, 2) ? text : rng.pick(std::vector<std::string>{ "", "plain", "a @ b { c }", "\xD0\x96 x", "@", "{X1}" });
+    const int how = rng.range(0, 2);
+    ops.emplace_back("c17 mtstr " + ctx->Line() + " " + std::to_string(how) + " " + hex(prev) + " " + hex(cur), [=]() { return opReinit(*ctx, prev, cur, how); });
+  }
   runGroup(ops);
 }
 
